@@ -441,6 +441,10 @@ func runHistories(r *ev.Run) {
 		// step of the election makes replicas disagree
 		variants = append(variants, chain.GenesisOptions{Escrow: []uint64{1500, 2000, 2500}, MaxValidators: 2, EpochInterval: 1, NodeExpiration: 12})
 	}
+	if prop == "C10" || prop == "C05" {
+		// governance as configured on current networks: proposals carry metadata, votes do not need a registered entity
+		variants = append(variants, chain.GenesisOptions{GovMetadata: true, EpochInterval: 2, NodeExpiration: 14})
+	}
 	if prop == "C05" || prop == "C10" {
 		// governance: a proposal raising the minimum proposal deposit has been submitted and carries
 		// enough yes votes to pass when it closes; a second proposal, submitted an epoch later under the
@@ -500,10 +504,10 @@ func runHistories(r *ev.Run) {
 		variants = append(variants, chain.GenesisOptions{MinTransactBalance: 10, LastBlockFees: 7, EpochInterval: 2})
 	}
 	if sel := os.Getenv("VERIF_ONLY_VARIANTS"); sel != "" {
-		// developer switch: km | vrf
+		// developer switch: km | vrf | gov
 		var keep []chain.GenesisOptions
 		for _, v := range variants {
-			if (sel == "km" && v.KeyManager) || (sel == "vrf" && v.VRF) {
+			if (sel == "km" && v.KeyManager) || (sel == "vrf" && v.VRF) || (sel == "gov" && v.GovMetadata) {
 				keep = append(keep, v)
 			}
 		}
